@@ -5509,6 +5509,9 @@ class CodegenCtx:
         elif isinstance(intexpr, StringRefIntegerExpr):
             index = self._generate_code_for_int_expr(intexpr.index, ctx)
             text = self._generate_buflike_index_expr(intexpr.ref, index)
+            if intexpr.ref.holds_a(OutputStorageType.STR):
+                # an indexed byte is 0-255 whether strings are stored as (possibly signed) char or as uint8_t
+                text = f"((uint8_t){text})"
             size_str = self._generate_buflike_length_expr(intexpr.ref)
             if ProgramData.do(ProgramFlag.UNSAFE_STRING_INDEXING):
                 return text
